@@ -278,90 +278,128 @@ def r_forcedir(idx, rep, rule="R-FORCEDIR"):
 
 
 def r_contactforce(idx, rep, rule="R-CONTACTFORCE"):
-    """compute_contact_force integrates the pressure over a fan of triangles: per triangle (a, b, c) the centroid (a + b + c) / 3, the area
-    0.5 * |(b - a) x (c - a)| (one common corner), force += pressure * area, area and area-weighted centroid accumulated, the centroid sum divided
-    by the total area."""
-    rep.rule(rule, "compute_contact_force: centroid = (a + b + c) / 3 of the triangle's own vertices, area = 0.5 * |cross(b - a, c - a)| with one common corner, "
-                   "force / area / area-weighted centroid accumulated with `+=` in the triangle loop, centroid normalised by the total area, pressure = sum(barycentric "
-                   "coordinates of the centroid * potentials * modulus)", floor=1, unknown_ceiling=2)
+    """compute_contact_force integrates the pressure over a fan of triangles.  Decided by algebraic evaluation of ONE generic iteration of the triangle loop
+    (rules/contactsym.py: sums / products flattened and sorted, corners of the current triangle as terms, piecewise-filled buffers tracked): per
+    triangle (v0, v1, v2)
+
+        centroid c = (v0 + v1 + v2) / 3          area A = 1/2 |e x e'| (two different edges)          pressure p = sum( solve(X, [c; 1]) * potentials * E )
+        force += p * A          total area += A          centre += A * c          and afterwards centre /= total area,  force vector = force * plane normal."""
+    from . import contactsym as cs
+    rep.rule(rule, "compute_contact_force: one generic iteration of the triangle fan accumulates pressure(centroid) * area, area and area * centroid with "
+                   "centroid = (v0 + v1 + v2) / 3, area = 1/2 |cross of two different edges|, pressure = sum(barycentric coordinates of the centroid * potentials "
+                   "* modulus); the centre is divided by the total area, the force vector is the accumulated force times the plane normal", floor=4, unknown_ceiling=3)
     f = idx.func(HY + "_forces::compute_contact_force")
-    loops = [st for st in f.node.body if isinstance(st, ast.For)]
+    ps = f.params()
+    if len(ps) < 4:
+        raise AnalysisError("compute_contact_force signature changed")
+    tet, eps, plane, polygon = ps[:4]
+    E = ps[4] if len(ps) > 4 else None
+    loops = [st for st in f.node.body if isinstance(st, ast.For) and isinstance(st.target, ast.Name)]
     if len(loops) != 1:
-        rep.unknown(rule, f.key + "|triangle fan", f.where, "no single triangle loop (restructured / vectorised): the integration formulas are not decided")
+        rep.unknown(rule, f.key + "|triangle fan", f.where, "no single triangle loop with a plain loop variable (restructured / vectorised): the integration formulas are not decided")
         return
     loop = loops[0]
     where = "%s:%d" % (f.module.relpath, loop.lineno)
-    from ..core.astutil import assign_pairs
-    defs = {}
-    for st in iter_stmts(loop.body):
-        for t_, v_ in assign_pairs(st):
-            defs[u(t_)] = v_
-    # the triangle's vertices: X = polygon[triangle]; corners X[0], X[1], X[2]
-    vname = None
-    for k, v in defs.items():
-        if isinstance(v, ast.Subscript) and isinstance(v.slice, ast.Name) and v.slice.id == u(loop.target):
-            vname = k
-    if vname is None:
-        rep.unknown(rule, f.key + "|triangle fan", f.where, "`vertices = contact_polygon[triangle]` not found: the integration formulas are not decided")
+    ev = cs.Eval(polygon, loop.target.id)
+    pre = f.node.body[:f.node.body.index(loop)]
+    ev.run([st for st in pre if isinstance(st, ast.Assign)])
+    pre_env = dict(ev.env)
+    ev.acc = {}
+    ev.run(loop.body)
+    if ev.notes:
+        rep.unknown(rule, f.key + "|triangle fan", where, "; ".join(ev.notes[:2]))
         return
-    def corner(e, depth=0):
-        """k when e is corner k of the triangle: `vertices[k]`, or a local bound to it (`v0, v1, v2 = vertices[0], vertices[1], vertices[2]`)"""
-        if isinstance(e, ast.Name) and e.id in defs and depth < 3:
-            return corner(defs[e.id], depth + 1)
-        return const(e.slice) if isinstance(e, ast.Subscript) and u(e.value) == vname and isinstance(const(e.slice), int) else None
-
-    def addends(e):
-        if isinstance(e, ast.BinOp) and isinstance(e.op, ast.Add):
-            return addends(e.left) + addends(e.right)
-        return [e]
-    # centroid
-    cen = [(k, v) for k, v in defs.items() if isinstance(v, ast.BinOp) and isinstance(v.op, (ast.Div, ast.Mult)) and sorted(c for c in map(corner, addends(v.left)) if c is not None)]
-    ok = False
-    why = "no expression of the form (v[0] + v[1] + v[2]) / 3 found"
-    cname = None
-    for k, v in cen:
-        cs = [corner(x) for x in addends(v.left)]
-        ok = sorted(c for c in cs if c is not None) == [0, 1, 2] and len(cs) == 3 and ((isinstance(v.op, ast.Div) and const(v.right) in (3, 3.0)) or (isinstance(v.op, ast.Mult) and abs((const(v.right) or 0) - 1 / 3) < 1e-12))
-        why = "centroid is `%s`" % u(v)
-        cname = k
-        break
-    rep.check(ok, rule, f.key + "|centroid of the triangle", where, "%s: the pressure is sampled at a point that is not the centroid (a + b + c) / 3 of the triangle's three corners" % why, "(a + b + c) / 3")
-    # area
-    ar = [(k, v) for k, v in defs.items() if any(isinstance(c, ast.Call) and (call_name(c) or "").endswith("cross") for c in ast.walk(v))]
-    ok, why, aname = False, "no cross product found", None
-    for k, v in ar:
-        aname = k
-        cr = [c for c in ast.walk(v) if isinstance(c, ast.Call) and (call_name(c) or "").endswith("cross")][0]
-        edges = []
-        for a_ in cr.args[:2]:
-            if isinstance(a_, ast.BinOp) and isinstance(a_.op, ast.Sub) and corner(a_.left) is not None and corner(a_.right) is not None:
-                edges.append((corner(a_.left), corner(a_.right)))
-        half = isinstance(v, ast.BinOp) and ((isinstance(v.op, ast.Mult) and 0.5 in (const(v.left), const(v.right))) or (isinstance(v.op, ast.Div) and const(v.right) in (2, 2.0)))
-        normed = any(isinstance(c, ast.Call) and call_name(c) in ("np.linalg.norm", "norm") for c in ast.walk(v))
-        ok = len(edges) == 2 and all(a_ != b_ for a_, b_ in edges) and set(edges[0]) != set(edges[1]) and half and normed      # any two different edges span the triangle
-        why = "area is `%s`" % u(v)[:90]
-    rep.check(ok, rule, f.key + "|area of the triangle", where, "%s: need 0.5 * |cross(e1, e2)| with two DIFFERENT edges of the triangle and the factor 1/2" % why, "0.5 |(b-a) x (c-a)|")
-    # accumulation
-    aug = {}
-    for st in loop.body:
-        if isinstance(st, ast.AugAssign) and isinstance(st.op, ast.Add):
-            aug[u(st.target)] = st.value
     rets = [st for st in f.node.body if isinstance(st, ast.Return) and isinstance(st.value, ast.Tuple) and len(st.value.elts) == 4]
     if not rets:
         raise AnalysisError("compute_contact_force: 4-tuple return vanished")
     com_n, fvec_n, area_n = [u(e) for e in rets[0].value.elts[:3]]
-    rep.check(area_n in aug and aname is not None and u(aug[area_n]) == aname, rule, f.key + "|total area accumulated", where,
-              "the returned area `%s` is not accumulated as `%s += %s` in the triangle loop" % (area_n, area_n, aname), "+= area")
-    ok = com_n in aug and aname is not None and isinstance(aug[com_n], ast.BinOp) and isinstance(aug[com_n].op, ast.Mult) and aname in {u(aug[com_n].left), u(aug[com_n].right)} \
-        and cname is not None and any(u(x).startswith(cname.split("[")[0]) for x in (aug[com_n].left, aug[com_n].right))
-    rep.check(ok, rule, f.key + "|area-weighted centroid accumulated", where, "the returned centre `%s` is not accumulated as `+= area * centroid`" % com_n, "+= area * centroid")
-    norm_ok = any(isinstance(st, ast.If) and any(isinstance(s_, ast.AugAssign) and isinstance(s_.op, ast.Div) and u(s_.target) == com_n and u(s_.value) == area_n for s_ in st.body)
-                  and ncmp(st.test) is not None and area_n in u(st.test) for st in f.node.body) or \
-        any(isinstance(st, ast.AugAssign) and isinstance(st.op, ast.Div) and u(st.target) == com_n and u(st.value) == area_n for st in f.node.body)
-    rep.check(norm_ok, rule, f.key + "|centroid divided by the total area", where, "the accumulated centre `%s` is not divided by the total area `%s` (guarded against a zero area)" % (com_n, area_n), "/= total area")
-    # force: += pressure * area
-    fscal = [k for k, v in aug.items() if isinstance(v, ast.BinOp) and isinstance(v.op, ast.Mult) and aname in {u(v.left), u(v.right)} and k != com_n]
-    rep.check(len(fscal) == 1, rule, f.key + "|force accumulates pressure * area", where, "expected exactly one `+= pressure * area` accumulation, found %s" % fscal, "+= pressure * area")
+    # an index-driven fan (`for i in range(n - 2)`: polygon[0], polygon[i + 1], polygon[i + 2]) names its corners as polygon vertices directly: when exactly
+    # three distinct ones occur in what is accumulated they ARE the corners (any bijection: the obligations are symmetric in the corners)
+    direct = []
+    for v_ in ev.acc.values():
+        for t_ in v_:
+            cs.polygon_vertices(t_, polygon, direct)
+    fan_note = None
+    if len(direct) == 3 and not any(x[0] == "corner" for v_ in ev.acc.values() for t_ in v_ for x in _walk_terms(t_)):
+        mapping = {t_: ("corner", k_) for k_, t_ in enumerate(sorted(direct, key=repr))}
+        for k_ in list(ev.acc):
+            ev.acc[k_] = [cs.rebuild(t_, lambda x: mapping.get(x)) for t_ in ev.acc[k_]]
+        # the fan itself: vertex 0 and two consecutive later vertices of the loop index
+        lv = ("sym", loop.target.id)
+        want_fan = sorted([("idx", ("sym", polygon), cs.num(0)), ("idx", ("sym", polygon), cs.add(lv, cs.num(1))), ("idx", ("sym", polygon), cs.add(lv, cs.num(2)))], key=repr)
+        fan_note = sorted(direct, key=repr) == want_fan
+        rep.check(fan_note, rule, f.key + "|fan around the first vertex", where,
+                  "the triangles are built from %s; a fan over an ordered convex polygon is (p[0], p[i + 1], p[i + 2])" % [cs.show(x) for x in direct], "p[0], p[i+1], p[i+2]")
+    c0, c1, c2 = ("corner", 0), ("corner", 1), ("corner", 2)
+    C = cs.mul(cs.add(c0, c1, c2), cs.num(Fraction_(1, 3)))
+    # area: the term added to the returned total area
+    A = (ev.acc.get(area_n) or [None])[0]
+    ok_area = False
+    if A is not None:
+        fac = A[1] if A[0] == "mul" else (A,)
+        nc = [x for x in fac if x[0] == "normcross"]
+        half = [x for x in fac if x[0] == "num"]
+        if len(nc) == 1 and len(fac) == 2 and half and half[0][1] == Fraction_(1, 2):
+            e1, e2 = nc[0][1]
+            ok_area = e1[0] == "edge" and e2[0] == "edge" and e1 != e2 and all(set(e[1]) <= {0, 1, 2} and len(set(e[1])) == 2 for e in (e1, e2))
+    rep.check(ok_area, rule, f.key + "|area of the triangle", where,
+              "the term added to the total area is `%s`: need 1/2 * |cross(e, e')| with two DIFFERENT edges of the triangle (v_i - v_j)" % (cs.show(A) if A is not None else "nothing"),
+              "1/2 |e x e'|")
+    rep.check(A is not None and len(ev.acc.get(area_n, [])) == 1, rule, f.key + "|total area accumulated", where, "the returned area `%s` is not accumulated once per triangle" % area_n, "+= area")
+    # centre: += A * C
+    com_terms = ev.acc.get(com_n, [])
+    okc = A is not None and len(com_terms) == 1 and com_terms[0] == cs.mul(A, C)
+    rep.check(okc, rule, f.key + "|area-weighted centroid accumulated", where,
+              "the returned centre `%s` accumulates `%s`; need area * (v0 + v1 + v2) / 3 with the SAME area term" % (com_n, [cs.show(t) for t in com_terms][:2]), "+= area * centroid")
+    # force: += p * A with p = sum(solve(X, [C; 1]) * eps * E)
+    fterms = {k: v for k, v in ev.acc.items() if k not in (com_n, area_n)}
+    okf, why = False, "no scalar force accumulator found"
+    X = None
+    for k, v in fterms.items():
+        if len(v) != 1 or A is None:
+            continue
+        t = v[0]
+        fac = list(t[1]) if t[0] == "mul" else [t]
+        afac = list(A[1]) if A[0] == "mul" else [A]
+        rest = list(fac)
+        try:
+            for x in afac:
+                rest.remove(x)
+        except ValueError:
+            why = "`%s += %s` does not contain the area term" % (k, cs.show(t))
+            continue
+        if len(rest) != 1 or rest[0][0] != "sum":
+            why = "`%s += %s`: after removing the area a single sum(...) (the pressure) must remain" % (k, cs.show(t))
+            continue
+        inner = rest[0][1]
+        pf = list(inner[1]) if inner[0] == "mul" else [inner]
+        sol = [x for x in pf if x[0] == "solve"]
+        others = sorted((x for x in pf if x[0] != "solve"), key=repr)
+        want_others = sorted([("sym", eps)] + ([("sym", E)] if E else []), key=repr)
+        if len(sol) == 1 and others == want_others and sol[0][2] == ("hom", C, cs.num(1)):
+            okf, X = True, sol[0][1]
+        else:
+            why = "pressure is `%s`; need sum(solve(X, [centroid; 1]) * %s%s) with the centroid (v0 + v1 + v2) / 3 of THIS triangle" % (cs.show(rest[0]), eps, " * " + E if E else "")
+        force_acc = k
+    rep.check(okf, rule, f.key + "|force accumulates pressure(centroid) * area", where, why, "+= p(c) * A")
+    if okf:
+        Xs = cs.show(X)
+        rep.check(X[0] == "call" and X[1] in ("vstack", "row_stack", "concatenate") and ("%s.T" % tet) in Xs and "ones" in Xs, rule, f.key + "|barycentric system", where,
+                  "the system matrix is `%s`; need the tetrahedron's vertices as columns above a row of ones" % Xs[:120], "[tet.T; 1]")
+    # after the loop
+    post = f.node.body[f.node.body.index(loop) + 1:]
+    norm_ok = any(isinstance(s_, ast.AugAssign) and isinstance(s_.op, ast.Div) and u(s_.target) == com_n and u(s_.value) == area_n for st in post for s_ in ast.walk(st))
+    rep.check(norm_ok, rule, f.key + "|centroid divided by the total area", where, "the accumulated centre `%s` is not divided by the total area `%s`" % (com_n, area_n), "/= total area")
+    if okf:
+        from ..core.astutil import inline_temps_in
+        fv = inline_temps_in(f.node, rets[0].value.elts[1])
+        okv = isinstance(fv, ast.BinOp) and isinstance(fv.op, ast.Mult) and {u(fv.left), u(fv.right)} == {force_acc, "%s[:3]" % plane}
+        rep.check(okv, rule, f.key + "|force vector along the plane normal", f.where, "the force vector is `%s`; need the accumulated force times %s[:3]" % (u(fv)[:80], plane), "force * normal")
+
+
+def Fraction_(a, b):
+    from fractions import Fraction
+    return Fraction(a, b)
 
 
 def r_polyguard(idx, rep, rule="R-POLYGUARD"):
